@@ -7,6 +7,16 @@ CooArray = namedtuple("CooArray", ["row", "col", "val", "key", "ind", "min", "de
 COO_QUICKSORT_LIMIT = 1 << 16
 COO_MEM_MULTIPLIER = 1.5
 
+# Verification hook (off by default): lets a test harness lower the sort/merge
+# threshold so that the multi-level merge and growth paths are reachable with
+# small corpora.  Has no effect unless VECTORIZERS_VERIF=1 is set.
+import os
+
+if os.environ.get("VECTORIZERS_VERIF") == "1":
+    COO_QUICKSORT_LIMIT = int(
+        os.environ.get("VECTORIZERS_VERIF_COO_QUICKSORT_LIMIT", COO_QUICKSORT_LIMIT)
+    )
+
 
 @numba.njit(nogil=True)
 def set_array_size(token_sequences, window_array):
